@@ -58,6 +58,15 @@ def is_val(x):
     return isinstance(x, z3.ExprRef) and x.sort() == Val
 
 
+def fstr_func(template, nparts):
+    """the uninterpreted function standing for an f-string template (keyed by its source text): contracts may name it"""
+    key = (template, nparts)
+    if key not in FSTR:
+        import zlib
+        FSTR[key] = z3.Function("fstr_%x_%d" % (zlib.crc32(template.encode()), nparts), *([Val] * nparts), I)
+    return FSTR[key]
+
+
 class Engine:
     MAX_INLINE = 6
 
@@ -1081,13 +1090,8 @@ class Engine:
                 if len(rs) == 1 and oks and is_val(oks[0].val):
                     parts.append(oks[0].val)
                     s = oks[0].st
-        key = (tid, len(parts))
-        if key not in FSTR:
-            FSTR[key] = z3.Function("fstr%d" % len(FSTR), *([Val] * len(parts)), I)
-        if parts:
-            sidt = FSTR[key](*parts)
-        else:
-            sidt = FSTR[key]()
+        fn = fstr_func(tid, len(parts))
+        sidt = fn(*parts) if parts else fn()
         return [Res("ok", s, vstr(sidt))]
 
     def simple_expr(self, e):
